@@ -5,6 +5,7 @@ nw=$1; shift
 export GOFLAGS=-mod=mod GOPROXY=off GOSUMDB=off GOTOOLCHAIN=local
 # queries in flight per check, so that nw checks side by side do not starve the solvers (a starved solver times out,
 # and a timeout on a baseline obligation would be counted as a catch / a false alarm)
+export GOVC_CACHE=${GOVC_CACHE:-/var/tmp/govc-cache}
 export GOVC_PAR=${GOVC_PAR:-$(( 16 / nw > 2 ? 16 / nw : 2 ))}
 declare -A EXTRA=( [C02]="C12 C03" [C03]="C08 C17 C20" [C04]="C07 C08 C09" [C06]="C02" [C07]="C08 C09 C04" [C08]="C17 C07 C09 C10" [C09]="C20 C07 C08" [C10]="C07 C09 C03" [C11]="C09 C08 C10 C07 C20" [C12]="C04 C20 C02" [C13]="C14 C17" [C14]="C13 C15 C12" [C15]="C14 C16" [C16]="C19 C15" [C17]="C13 C08 C14" [C18]="C12 C07" [C19]="C16 C15" [C20]="C09 C03 C12" )
 work() {
